@@ -748,6 +748,7 @@ pub open spec fn sum_spec(w: Seq<Option<real>>, mp: int, o: U) -> bool {
             assert(adds(self.h@.push(c)) =~= adds(self.h@).push(v));
             assert(vals(adds(self.h@.push(c))) =~= vals(adds(self.h@)).push(val(v)));
             assert(wma_spec(vals(win(self.h@).push(v)), self.min_periods as int, __r));       // #C01,C05 output_is_window_statistic
+            assert(rv(sum_xt) == wsum(vals(win(self.h@.push(c)))) && rv(sum) == ps(vals(win(self.h@.push(c))), 1) && n as int == cnt(vals(win(self.h@.push(c)))));   // #C01 weighted_state_after_call
             lemma_outs_step(self.h@, c, |w: Seq<T>, o: U| wma_spec(vals(w), self.min_periods as int, o));
         }
 //@at body first
